@@ -82,7 +82,8 @@ class SchemaInfo(object):
 
 
 def _class_sort_key(cls):
-    return (repr(cls), str(cls.get_namespace()), str(cls.get_type_name()))
+    return (repr(cls), str(cls.get_namespace()), str(cls.get_type_name()),
+                   str(cls.Attributes.sub_ns), str(cls.Attributes.sub_name))
 
 
 class XmlSchema(InterfaceDocumentBase):
